@@ -213,6 +213,7 @@ type crashImage struct {
 type crashObserver struct {
 	watch    *dirWatch
 	inferred int
+	always   bool // no commit events in this tree: every arrival of the run is a crash point
 	inCommit bool
 	commit   int
 	images   []crashImage
@@ -232,7 +233,7 @@ func (co *crashObserver) OnArrival(k *Kernel, g *G, a *arrival) {
 	co.hits[a.point]++
 	evs := co.watch.Drain()
 	wasIn := co.inCommit
-	if a.point == "tx.commit.truncate" && !co.inCommit {
+	if (a.point == "tx.commit.truncate" || co.always) && !co.inCommit {
 		co.inCommit = true
 	}
 	if co.inCommit {
@@ -247,7 +248,7 @@ func (co *crashObserver) OnArrival(k *Kernel, g *G, a *arrival) {
 		}
 		co.images = append(co.images, crashImage{Commit: co.commit, Point: a.point, Nth: co.hits[a.point], Step: k.step.Load(), Dir: now})
 	}
-	if a.point == "tx.commit.done" && co.inCommit {
+	if a.point == "tx.commit.done" && co.inCommit && !co.always {
 		co.inCommit = false
 		co.commit++
 		co.versions = append(co.versions, SnapshotDir(k.Dir))
@@ -258,7 +259,11 @@ func (c10) Eval(t *testing.T, c *Case, dec func(int) *Decider) *Outcome {
 	sc := c.Scenario
 	o := &Outcome{}
 	const prop = "C10"
-	co := &crashObserver{}
+	// A tree whose Commit lost its begin / end events: every arrival of the run is
+	// a crash point, and the committed versions of the tables come from fault-free
+	// runs of the program cut after each COMMIT.
+	noCommitEvents := hookMissing("tx.commit.truncate", "tx.commit.done")
+	co := &crashObserver{always: noCommitEvents}
 	res, _ := Execute(t, sc, dec(0), co)
 	co.watch.Close()
 	o.Runs = 1
@@ -287,6 +292,44 @@ func (c10) Eval(t *testing.T, c *Case, dec func(int) *Decider) *Outcome {
 	pre := map[string]bool{}
 	for _, f := range sc.Files {
 		pre[f.Name] = true
+	}
+	if noCommitEvents {
+		o.Stats.probe("oracle-fallback:versions-from-prefix-runs")
+		var meta c10Meta
+		mustUnJSON(sc.Meta["workload"], &meta)
+		co.versions = co.versions[:1]
+		for i, st := range meta.Stmts {
+			if st != "COMMIT;" && i != len(meta.Stmts)-1 {
+				continue
+			}
+			psc := *sc
+			psc.Torn = nil
+			psc.Procs = append([]ProcSpec{}, sc.Procs...)
+			psc.Procs[0].Program = strings.Join(meta.Stmts[:i+1], "\n")
+			pres, _ := Execute(t, &psc, dec(10+i))
+			o.Runs++
+			co.versions = append(co.versions, pres.Final)
+		}
+		for _, img := range co.images {
+			for name := range pre {
+				f, exists := img.Dir[name]
+				known := false
+				for _, v := range co.versions {
+					if exists && v[name].Data == f.Data {
+						known = true
+					}
+				}
+				switch {
+				case !exists:
+					o.viol(prop, "old-or-new", "table-missing", fmt.Sprintf("crash image at %s (step %d): table %s does not exist (directory: %s)", img.Point, img.Step, name, img.Dir.String()))
+				case !known:
+					o.viol(prop, "old-or-new", "table-not-a-committed-version", fmt.Sprintf("crash image at %s (step %d): table %s holds %d bytes that are none of its committed versions", img.Point, img.Step, name, len(f.Data)))
+				default:
+					o.Stats.probe("image:some-version")
+				}
+			}
+		}
+		co.images = nil // the event-based judgement below does not apply
 	}
 	judge := func(img DirState, commit int, label string) bool {
 		ok := true
